@@ -30,6 +30,8 @@ REVERSE = {   # name: fix commit subject prefix
     'C20-refused-import-keeps-export': 'fix: refusing a buffer with 0 or more than 2 dimensions',
     'C07-chol2-stale-patterns': 'fix: kkt_chol2 reuses the sparsity patterns',
     'C15-iadd-sparse-not-inplace': 'fix: A += B and A -= B with a dense A and a sparse B',
+    'C16-syrk-alpha-twice': 'fix: base.syrk with sparse A and dense C multiplies by alpha twice',
+    'C16-sparse-ignores-tc': 'fix: sparse(x, tc) ignores tc',
 }
 
 CUSTOM = {
